@@ -20,6 +20,7 @@ contains `translator_refused`, so that everything depending on it stops compilin
 diagnostic is returned to the harness.
 """
 import ast
+import cli_expand
 import os
 import sys
 
@@ -103,7 +104,7 @@ NARGS = {None: "NNone", "+": "NPlus", "?": "NOpt", "*": "NStar"}
 
 
 def parser_args(repo, name):
-    tree = parse(repo, "cli")
+    tree = cli_expand.expand(parse(repo, "cli"))       # declaration helpers read as the declarations they perform
     fn = find_def(tree.body, "execute")
     var = None
     aliases = []
